@@ -278,13 +278,13 @@ End EndToEnd.
 (* ------------------------------------------------------------------------------------------ *)
 (* schema rt_fs (RoundtripLemmas.v): n = IntField(1..100), s = StringField(min_len=2, required), sub.a = IntField,
    rows = ListField(Schema(v = IntField(required)));  Config(schema, n=42, s="<a&b> ", rows=[{"v": 1}, {"v": -7}]) *)
-Definition xc_kw : list (str * pyval) :=
-  [(sa "n", PInt 42); (sa "s", PStr (sa "<a&b> "));
-   (sa "rows", PList 0 [PDict 0 [(PStr (sa "v"), PInt 1)]; PDict 0 [(PStr (sa "v"), PInt (-7))]])].
-Definition xc_state : icfg := Eval vm_compute in snd (fst (ctor [] w0 false rt_fs xc_kw)).
-Definition xc_w : world := Eval vm_compute in fst (fst (ctor [] w0 false rt_fs xc_kw)).
+Definition xc_kw : list (str * kwv) :=
+  [(sa "n", KV (PInt 42)); (sa "s", KV (PStr (sa "<a&b> ")));
+   (sa "rows", KV (PList 0 [PDict 0 [(PStr (sa "v"), PInt 1)]; PDict 0 [(PStr (sa "v"), PInt (-7))]]))].
+Definition xc_state : icfg := Eval vm_compute in snd (fst (ctor [] w0 false [] rt_fs xc_kw)).
+Definition xc_w : world := Eval vm_compute in fst (fst (ctor [] w0 false [] rt_fs xc_kw)).
 
-Example xc_state_reached : ctor [] w0 false rt_fs xc_kw = (xc_w, xc_state, OOk).
+Example xc_state_reached : ctor [] w0 false [] rt_fs xc_kw = (xc_w, xc_state, OOk).
 Proof. vm_compute. reflexivity. Qed.
 
 Example xc_state_deep_valid : deep_valid leaf lvalidate lflag (vrun []) false [] rt_fs xc_state.
